@@ -33,9 +33,14 @@ var (
 	out      = os.Stdout
 )
 
+var failSeen = map[string]int{}
+
 func fail(prop, clause, format string, a ...interface{}) {
 	nfail++
-	fmt.Fprintf(out, "FAIL %s %s %s\n", prop, clause, fmt.Sprintf(format, a...))
+	failSeen[prop+clause]++
+	if failSeen[prop+clause] <= 3 { // the first few of each kind are enough
+		fmt.Fprintf(out, "FAIL %s %s %s\n", prop, clause, fmt.Sprintf(format, a...))
+	}
 }
 
 func scen(format string, a ...interface{}) {
@@ -248,6 +253,13 @@ func pendingScenario(rng *rand.Rand, capEv uint, nev int, pendingErr string, con
 		if !ok {
 			r = c + ":BLOCKED"
 			fail("C05", "control-call-blocked", "call=%s cap=%d nev=%d err=%s consumer=%s", c, capEv, nev, pendingErr, consumer)
+			if c == "close" {
+				fail("C06", "close-never-completes", "channels can never close: Close blocked; cap=%d nev=%d err=%s consumer=%s", capEv, nev, pendingErr, consumer)
+			}
+			fail("C07", "deadlock", "call=%s blocked for ever; cap=%d nev=%d err=%s consumer=%s concurrent=%v", c, capEv, nev, pendingErr, consumer, concurrent)
+			if strings.HasPrefix(pendingErr, "overflow") {
+				fail("C10", "api-blocked-after-overflow", "call=%s cap=%d nev=%d consumer=%s", c, capEv, nev, consumer)
+			}
 		}
 		results[i] = r
 	}
@@ -280,6 +292,11 @@ func pendingScenario(rng *rand.Rand, capEv uint, nev int, pendingErr string, con
 		// inert afterwards
 		if err := p.w.Add(dir); !errors.Is(err, fsnotify.ErrClosed) {
 			fail("C06", "add-after-close-not-errclosed", "%v", err)
+		}
+		for _, n := range []int{0, 1024, 4095, 65536} {
+			if err := p.w.AddWith(dir, fsnotify.WithBufferSize(n)); !errors.Is(err, fsnotify.ErrClosed) {
+				fail("C06", "addwith-after-close-not-errclosed", "WithBufferSize(%d): %v", n, err)
+			}
 		}
 		if err := p.w.Remove(dir); err != nil {
 			fail("C06", "remove-after-close-not-nil", "%v", err)
@@ -336,6 +353,9 @@ func closeRace(rng *rand.Rand, capEv uint, closers int, withTraffic bool) {
 		return
 	}
 	scen("closerace cap=%d closers=%d traffic=%v", capEv, closers, withTraffic)
+	if fl, err := unix.FcntlInt(uintptr(fsnotify.VerifInotifyFd(w)), unix.F_GETFD, 0); err == nil && fl&unix.FD_CLOEXEC == 0 {
+		fail("C13", "descriptor-not-close-on-exec", "a child process started while the Watcher is open keeps the inotify instance alive after Close")
+	}
 	w.Add(dir)
 	for i := 0; i < 3; i++ {
 		d := filepath.Join(dir, fmt.Sprintf("d%d", i))
@@ -425,6 +445,59 @@ func closeRace(rng *rand.Rand, capEv uint, closers int, withTraffic bool) {
 	}
 }
 
+// readError: the descriptor reports end-of-file; the error is delivered; Close must still close the descriptor and
+// the channels
+func readError(rng *rand.Rand, consumeFirst bool) {
+	dir, _ := os.MkdirTemp("", "vconc")
+	defer os.RemoveAll(dir)
+	p, err := newPiped(0)
+	if err != nil {
+		return
+	}
+	defer p.shutdown()
+	p.w.Add(dir)
+	scen("read-error consume-first=%v", consumeFirst)
+	unix.Shutdown(p.sock, unix.SHUT_WR) // the reader's Read now returns 0: io.EOF is sent on Errors
+	if consumeFirst {
+		select {
+		case e := <-p.w.Errors:
+			if e == nil {
+				fail("C10", "nil-error-delivered", "")
+			}
+		case <-time.After(watchdog):
+			fail("C10", "read-error-not-reported", "")
+		}
+	}
+	var cerr error
+	if !withTimeout(func() { cerr = p.w.Close() }) {
+		fail("C05", "close-blocked", "after a read error")
+		return
+	}
+	if cerr != nil {
+		fail("C06", "close-returned-error", "%v", cerr)
+	}
+	ec, rc := closedWithin(p.w.Events, p.w.Errors, watchdog)
+	if !ec || !rc {
+		fail("C06", "channels-not-closed-after-close", "after a read error: events_closed=%v errors_closed=%v", ec, rc)
+	}
+	// the library's end of the descriptor must be closed now: our end sees the hang-up
+	fds := []unix.PollFd{{Fd: int32(p.sock), Events: unix.POLLIN}}
+	hup := false
+	deadline := time.Now().Add(watchdog)
+	for time.Now().Before(deadline) && !hup {
+		unix.Poll(fds, 20)
+		hup = fds[0].Revents&(unix.POLLHUP|unix.POLLERR) != 0
+		if !hup {
+			buf := make([]byte, 16)
+			n, _, e := unix.Recvfrom(p.sock, buf, unix.MSG_DONTWAIT)
+			hup = n == 0 && e == nil
+		}
+	}
+	if !hup {
+		fail("C13", "descriptor-not-closed-after-close", "after a read error was delivered, Close returned but the Watcher's descriptor is still open")
+	}
+}
+
 // resourceCycles: many create/use/close cycles keep descriptor and goroutine counts flat
 func resourceCycles(rng *rand.Rand, cycles int) {
 	dir, _ := os.MkdirTemp("", "vconc")
@@ -437,8 +510,17 @@ func resourceCycles(rng *rand.Rand, cycles int) {
 			fail("C13", "new-watcher-failed-in-cycle", "cycle=%d %v", i, err)
 			return
 		}
-		switch rng.Intn(4) {
+		switch rng.Intn(5) {
 		case 0:
+		case 4: // an unread event keeps the reader busy while a watched file disappears: its IN_IGNORED is still queued at Close
+			w.Add(dir)
+			f := filepath.Join(dir, "gone2")
+			os.WriteFile(f, nil, 0o644)
+			w.Add(f)
+			os.WriteFile(filepath.Join(dir, "y"), nil, 0o644)
+			time.Sleep(2 * time.Millisecond)
+			os.Remove(f)
+			os.Remove(filepath.Join(dir, "y"))
 		case 1:
 			w.Add(dir)
 		case 2: // pending events nobody reads
@@ -451,9 +533,14 @@ func resourceCycles(rng *rand.Rand, cycles int) {
 			w.Add(f)
 			os.Remove(f)
 		}
-		if !withTimeout(func() { w.Close() }) {
+		var cerr error
+		if !withTimeout(func() { cerr = w.Close() }) {
 			fail("C05", "close-blocked", "cycle=%d", i)
 			return
+		}
+		if cerr != nil {
+			fail("C13", "close-returned-error", "cycle=%d: %v (a Close that gives up half-way releases nothing)", i, cerr)
+			fail("C06", "close-returned-error", "cycle=%d: %v", i, cerr)
 		}
 	}
 	deadline := time.Now().Add(watchdog)
@@ -522,7 +609,11 @@ func collect(w *fsnotify.Watcher, n int, pace string, rng *rand.Rand) []string {
 		}
 		select {
 		case e := <-w.Events:
-			got = append(got, e.Op.String()+" "+filepath.Base(e.Name))
+			item := e.Op.String() + " " + filepath.Base(e.Name)
+			if f := fsnotify.VerifRenamedFrom(e); f != "" {
+				item += " <- " + filepath.Base(f)
+			}
+			got = append(got, item)
 		case err := <-w.Errors:
 			got = append(got, "ERROR "+err.Error())
 		case <-deadline:
@@ -655,8 +746,24 @@ func absorb(rng *rand.Rand, sz uint) {
 		}
 	}
 	read(2)
-	time.Sleep(10 * time.Millisecond)
-	read(total - 2)
+	// more notifications keep arriving while the buffer is (still) full and the consumer reads in small bursts
+	for round := 0; round < 25; round++ {
+		var dg2 []byte
+		k := 1 + rng.Intn(3)
+		for i := total; i < total+k; i++ {
+			dg2 = append(dg2, rec(1, unix.IN_CREATE, 0, fmt.Sprintf("a%04d", i))...)
+		}
+		unix.Write(p.sock, dg2)
+		total += k
+		if rng.Intn(2) == 0 {
+			time.Sleep(time.Duration(rng.Intn(300)) * time.Microsecond)
+		}
+		read(1 + rng.Intn(2))
+		if rng.Intn(3) == 0 {
+			runtime.Gosched()
+		}
+	}
+	read(total - len(got))
 	for i, g := range got {
 		if g != fmt.Sprintf("a%04d", i) {
 			fail("C03", "buffered-events-reordered", "size=%d position=%d got=%s", sz, i, g)
@@ -978,10 +1085,23 @@ func concurrentAPI(rng *rand.Rand, workers, perWorker int, withFsTraffic bool) {
 	}
 }
 
+// guard runs one scenario; a scenario that does not finish (some call of the library never returns and the scenario's
+// own watchdogs do not cover it) is reported and abandoned, so that the harness itself always terminates
+func guard(name string, f func()) {
+	done := make(chan struct{})
+	go func() { f(); close(done) }()
+	select {
+	case <-done:
+	case <-time.After(12 * watchdog):
+		fail("C05", "scenario-hung", "%s: a library call never returned (goroutines: %d readers alive)", name, fsnotifyGoroutines())
+		fail("C07", "deadlock", "%s: a library call never returned", name)
+	}
+}
+
 func main() {
 	seed := flag.Int64("seed", 1, "PRNG seed")
 	tier := flag.String("tier", "quick", "quick|thorough")
-	what := flag.String("what", "pending,closerace,cycles,limit,buffers,absorb,others,api", "scenario families")
+	what := flag.String("what", "pending,closerace,cycles,limit,buffers,absorb,others,api,readerr", "scenario families")
 	flag.Parse()
 	rng := rand.New(rand.NewSource(*seed))
 	thorough := *tier == "thorough"
@@ -998,7 +1118,8 @@ func main() {
 		for i := 0; i < n; i++ {
 			c := caps[rng.Intn(len(caps))]
 			nev := []int{0, 1, 2, 5, int(c) + 3}[rng.Intn(5)]
-			pendingScenario(rng, c, nev, errsK[rng.Intn(len(errsK))], consumers[rng.Intn(len(consumers))], callSets[rng.Intn(len(callSets))], rng.Intn(2) == 0)
+			e, co, cs, cc := errsK[rng.Intn(len(errsK))], consumers[rng.Intn(len(consumers))], callSets[rng.Intn(len(callSets))], rng.Intn(2) == 0
+			guard("pending", func() { pendingScenario(rng, c, nev, e, co, cs, cc) })
 		}
 	}
 	if has("closerace") {
@@ -1007,30 +1128,37 @@ func main() {
 			n = 150
 		}
 		for i := 0; i < n; i++ {
-			closeRace(rng, []uint{0, 1, 64}[rng.Intn(3)], 1+rng.Intn(4), rng.Intn(3) != 0)
+			cp, cl, tr := []uint{0, 1, 64}[rng.Intn(3)], 1+rng.Intn(4), rng.Intn(3) != 0
+			guard("closerace", func() { closeRace(rng, cp, cl, tr) })
 		}
+	}
+	if has("readerr") {
+		guard("readerr", func() { readError(rng, true) })
+		guard("readerr", func() { readError(rng, false) })
 	}
 	if has("cycles") {
 		n := 300
 		if thorough {
 			n = 5000
 		}
-		resourceCycles(rng, n)
+		guard("cycles", func() { resourceCycles(rng, n) })
 	}
 	if has("limit") {
-		instanceLimit()
+		guard("limit", instanceLimit)
 	}
 	if has("buffers") {
-		bufferSizes(rng)
+		guard("buffers", func() { bufferSizes(rng) })
 	}
 	if has("absorb") {
 		for _, sz := range []uint{1, 2, 8, 64, 1024} {
-			absorb(rng, sz)
+			sz := sz
+			guard("absorb", func() { absorb(rng, sz) })
 		}
 	}
 	if has("others") {
 		for _, k := range []int{1, 3, 7} {
-			otherWatchers(rng, k)
+			k := k
+			guard("others", func() { otherWatchers(rng, k) })
 		}
 	}
 	if has("api") {
@@ -1039,7 +1167,8 @@ func main() {
 			n = 600
 		}
 		for i := 0; i < n; i++ {
-			concurrentAPI(rng, 2+rng.Intn(3), 2, rng.Intn(2) == 0)
+			wk, tr := 2+rng.Intn(3), rng.Intn(2) == 0
+			guard("api", func() { concurrentAPI(rng, wk, 2, tr) })
 		}
 	}
 	fmt.Fprintf(out, "SUMMARY scenarios=%d failures=%d\n", nscen, nfail)
